@@ -9,7 +9,10 @@
         write_entry with the given short entry -> as above
    "delete <region> <first> <last>"                      mark_deleted -> "ok <region>"
    "remove <region> <name> <child_nonempty 0|1>"         remove_entry -> "ok <region>" | "err <Variant> <region>"
-   "rename <kind> <region> <src> <dst>"                  rename_in_dir -> "ok <region>" | "err <Variant> <region>"
+   "rename <kind> <region> <src> <dst>"                  rename_in_dir -> "ok <path> <region>" | "err <Variant> <region>"
+        <path> (coverage only; the model's own find_entry / check_for_existence / has_exact_name): "fresh" (destination name
+        unused), "self-exact" (destination resolves to the source entry in its stored spelling: no-op), "self-respell"
+        (to the source entry under another spelling / its alias: rewritten with the same short name)
    "scan <fat32> <region>"                               Spec.Abs.dir_scan -> "<entries> <labels> <issues>: <sfn11>,<lfn units|->;..." *)
 open Conv
 
@@ -67,8 +70,17 @@ let line (t : string list) : string =
     out (fun _ -> "ok") r ss
   | ["rename"; kind; region; src; dst] ->
     let (k, free) = kind_of kind in
-    let (r, ss) = DirSlots.rename_in_dir upper oem k free (slots_of_hex region) (name_of_hex src) (name_of_hex dst) in
-    out (fun _ -> "ok") r ss
+    let ss0 = slots_of_hex region in
+    let (r, ss) = DirSlots.rename_in_dir upper oem k free ss0 (name_of_hex src) (name_of_hex dst) in
+    let path =
+      match DirSlots.find_entry upper oem ss0 (name_of_hex src) None,
+            DirSlots.check_for_existence upper oem ss0 (name_of_hex dst) None with
+      | Base.Ok e, Base.Ok (DirSlots.Exists d) ->
+        if e.Lfn.ev_end <> d.Lfn.ev_end then "other"
+        else if DirSlots.has_exact_name e (name_of_hex dst) then "self-exact" else "self-respell"
+      | Base.Ok _, Base.Ok (DirSlots.Fresh _) -> "fresh"
+      | _ -> "-" in
+    out (fun _ -> "ok " ^ path) r ss
   | ["scan"; f32; region] ->
     let ((es, ls), iss) = Abs.dir_scan (slots_of_hex region) BinNums.N0 [] (f32 = "1") in
     Printf.sprintf "%d %d %d: %s" (Stdlib.List.length es) (Stdlib.List.length ls) (Stdlib.List.length iss)
